@@ -590,4 +590,244 @@ theorem mkKeyBatches_spec : MkSpec mkKeyBatches :=
 theorem mkPutBatches_spec : MkSpec mkPutBatches :=
   mk_spec_of_flatten (fun l => putBatches Gen.rawBatchPutSize l [] 0) (fun l => by simp [putBatches_flatten])
 
+theorem keysOf_mapKey (keys : List Bytes) : keysOf (keys.map fun k => ((k, []) : Item)) = keys := by
+  unfold keysOf
+  induction keys with
+  | nil => rfl
+  | cons a t ih => simp only [List.map_cons, ih]
+
+/-! ### folds of inserts (Go maps filled in request order) -/
+
+abbrev ins (a : Store) (p : KV) : Store := a.insert p.1 p.2
+
+theorem foldl_ins_notin (ps : List KV) (acc : Store) (k : Bytes) (h : k ∉ keysOf ps) :
+    (ps.foldl ins acc).get k = acc.get k := by
+  induction ps generalizing acc with
+  | nil => rfl
+  | cons p t ih =>
+    simp only [keysOf, List.map_cons, List.mem_cons, not_or] at h
+    simp only [List.foldl_cons]
+    rw [ih _ (by simpa [keysOf] using h.2), OMap.get_insert]
+    simp [h.1]
+
+theorem foldl_ins_indep (ps : List KV) (a b : Store) (k : Bytes) (h : k ∈ keysOf ps) :
+    (ps.foldl ins a).get k = (ps.foldl ins b).get k := by
+  induction ps generalizing a b with
+  | nil => simp [keysOf] at h
+  | cons p t ih =>
+    simp only [List.foldl_cons]
+    by_cases ht : k ∈ keysOf t
+    · exact ih _ _ ht
+    · rw [foldl_ins_notin _ _ _ ht, foldl_ins_notin _ _ _ ht, OMap.get_insert, OMap.get_insert]
+      have : k = p.1 := by
+        simp only [keysOf, List.map_cons, List.mem_cons] at h
+        rcases h with h | h
+        · exact h
+        · exact absurd (by simpa [keysOf] using h) ht
+      simp [this]
+
+theorem foldl_ins_mem (ps : List KV) (acc : Store) (k v : Bytes) (h : (ps.foldl ins acc).get k = some v) :
+    (k, v) ∈ ps ∨ acc.get k = some v := by
+  induction ps generalizing acc with
+  | nil => exact Or.inr h
+  | cons p t ih =>
+    simp only [List.foldl_cons] at h
+    rcases ih _ h with h1 | h1
+    · exact Or.inl (List.mem_cons_of_mem _ h1)
+    · rw [OMap.get_insert] at h1
+      split at h1
+      · rename_i hk
+        simp only [Option.some.injEq] at h1
+        left
+        have : p = (k, v) := by rw [hk, ← h1]
+        rw [this]; exact List.mem_cons_self ..
+      · exact Or.inr h1
+
+theorem foldl_ins_some (ps : List KV) (acc : Store) (k : Bytes) (h : k ∈ keysOf ps) :
+    ∃ v, (ps.foldl ins acc).get k = some v := by
+  induction ps generalizing acc with
+  | nil => simp [keysOf] at h
+  | cons p t ih =>
+    simp only [List.foldl_cons]
+    by_cases ht : k ∈ keysOf t
+    · exact ih _ ht
+    · rw [foldl_ins_notin _ _ _ ht, OMap.get_insert]
+      have : k = p.1 := by
+        simp only [keysOf, List.map_cons, List.mem_cons] at h
+        rcases h with h | h
+        · exact h
+        · exact absurd (by simpa [keysOf] using h) ht
+      exact ⟨p.2, by simp [this]⟩
+
+theorem empty_get (k : Bytes) : (OMap.empty : Store).get k = none := rfl
+
+/-- `(foldl insert m items).get k`: decided by the items alone when `k` occurs in them -/
+theorem foldl_ins_split (ps : List KV) (m : Store) (k : Bytes) :
+    (ps.foldl ins m).get k = if k ∈ keysOf ps then (ps.foldl ins OMap.empty).get k else m.get k := by
+  by_cases h : k ∈ keysOf ps
+  · simp only [h, if_true]; exact foldl_ins_indep _ _ _ _ h
+  · simp only [h, if_false]; exact foldl_ins_notin _ _ _ h
+
+/-! ### batch get -/
+
+def PGet : View → List Bytes → View → Prop := fun v A v' =>
+  v'.1 = v.1 ∧ ∀ k x, (k, x) ∈ v'.2 ↔ ((k, x) ∈ v.2 ∨ (k ∈ A ∧ v.1.get k = some x))
+
+theorem PGet_eff : Eff PGet := by
+  constructor
+  · intro v; exact ⟨rfl, by simp⟩
+  · intro v A v1 B v2 h1 h2
+    refine ⟨h2.1.trans h1.1, ?_⟩
+    intro k x
+    rw [h2.2, h1.2, h1.1]
+    simp only [List.mem_append]
+    grind
+  · intro v A B v' hAB h
+    refine ⟨h.1, ?_⟩
+    intro k x
+    rw [h.2, hAB]
+
+theorem mem_regionBatchGet (m : Store) (R : Region) (keys : List Bytes) (k x : Bytes) :
+    (k, x) ∈ regionBatchGet m R keys ↔ k ∈ keys ∧ regionGet m R k = some x := by
+  unfold regionBatchGet
+  simp only [List.mem_filterMap, Option.map_eq_some_iff, Prod.mk.injEq]
+  constructor
+  · rintro ⟨a, ha, v, hv, rfl, rfl⟩; exact ⟨ha, hv⟩
+  · rintro ⟨hk, hv⟩; exact ⟨k, hk, x, hv, rfl, rfl⟩
+
+theorem execGet_eff (s : BState) (R : Region) (b : List Item)
+    (h : ∀ it ∈ b, True ∧ inRegion R it.1 = true) : PGet (view s) (keysOf b) (view (execGet s R b)) := by
+  refine ⟨rfl, ?_⟩
+  intro k x
+  simp only [view, execGet, List.mem_append, mem_regionBatchGet, regionGet_eq]
+  constructor
+  · rintro (h1 | ⟨hk, hv⟩)
+    · exact Or.inl h1
+    · right
+      refine ⟨hk, ?_⟩
+      obtain ⟨it, hit, rfl⟩ := List.mem_map.mp hk
+      simpa [(h it hit).2] using hv
+  · rintro (h1 | ⟨hk, hv⟩)
+    · exact Or.inl h1
+    · right
+      refine ⟨hk, ?_⟩
+      obtain ⟨it, hit, rfl⟩ := List.mem_map.mp hk
+      simpa [(h it hit).2] using hv
+
+theorem keyToValue_get (g : Bytes → Option Bytes) (ps : List KV) (hs : ∀ p ∈ ps, g p.1 = some p.2)
+    (acc : Store) (k : Bytes) :
+    (ps.foldl ins acc).get k = if k ∈ keysOf ps then g k else acc.get k := by
+  induction ps generalizing acc with
+  | nil => simp [keysOf]
+  | cons p t ih =>
+    simp only [List.foldl_cons]
+    rw [ih (fun q hq => hs q (List.mem_cons_of_mem _ hq)), OMap.get_insert]
+    have hp := hs p (List.mem_cons_self ..)
+    by_cases ht : k ∈ keysOf t
+    · have : k ∈ keysOf (p :: t) := by simp only [keysOf, List.map_cons, List.mem_cons]; right; simpa [keysOf] using ht
+      simp [ht, this]
+    · by_cases hk : k = p.1
+      · subst hk
+        have : p.1 ∈ keysOf (p :: t) := by simp [keysOf]
+        simp [ht, this, hp]
+      · have : k ∉ keysOf (p :: t) := by
+          simp only [keysOf, List.map_cons, List.mem_cons, not_or]
+          exact ⟨hk, by simpa [keysOf] using ht⟩
+        simp [ht, this, hk]
+
+/-! ### batch put -/
+
+def PPut (w : Bytes → Option Bytes) : View → List Bytes → View → Prop := fun v A v' =>
+  ∀ k, v'.1.get k = if k ∈ A then w k else v.1.get k
+
+theorem PPut_eff (w : Bytes → Option Bytes) : Eff (PPut w) := by
+  constructor
+  · intro v k; simp
+  · intro v A v1 B v2 h1 h2 k
+    rw [h2 k, h1 k]
+    simp only [List.mem_append]
+    grind
+  · intro v A B v' hAB h k
+    rw [h k]; simp only [hAB]
+
+theorem regionBatchPut_get (w : Bytes → Option Bytes) (R : Region) (b : List Item) (m : Store)
+    (h : ∀ it ∈ b, w it.1 = some it.2 ∧ inRegion R it.1 = true) (k : Bytes) :
+    (regionBatchPut m R b).get k = if k ∈ keysOf b then w k else m.get k := by
+  unfold regionBatchPut
+  induction b generalizing m with
+  | nil => simp [keysOf]
+  | cons it t ih =>
+    simp only [List.foldl_cons]
+    rw [ih _ (fun q hq => h q (List.mem_cons_of_mem _ hq))]
+    have hit := h it (List.mem_cons_self ..)
+    simp only [regionPut, hit.2, if_true, OMap.get_insert]
+    by_cases ht : k ∈ keysOf t
+    · have : k ∈ keysOf (it :: t) := by simp only [keysOf, List.map_cons, List.mem_cons]; right; simpa [keysOf] using ht
+      simp [ht, this]
+    · by_cases hk : k = it.1
+      · subst hk
+        have : it.1 ∈ keysOf (it :: t) := by simp [keysOf]
+        simp [ht, this, hit.1]
+      · have : k ∉ keysOf (it :: t) := by
+          simp only [keysOf, List.map_cons, List.mem_cons, not_or]
+          exact ⟨hk, by simpa [keysOf] using ht⟩
+        simp [ht, this, hk]
+
+theorem mem_lastWins (items : List Item) (it' : Item) :
+    it' ∈ lastWins items ↔ ∃ it ∈ items, it'.1 = it.1 ∧ (items.foldl ins OMap.empty).get it.1 = some it'.2 := by
+  unfold lastWins
+  simp only [List.mem_filterMap, Option.map_eq_some_iff]
+  constructor
+  · rintro ⟨it, hit, v, hv, rfl⟩; exact ⟨it, hit, rfl, hv⟩
+  · rintro ⟨it, hit, h1, h2⟩
+    refine ⟨it, hit, it'.2, h2, ?_⟩
+    rw [← h1]
+
+theorem lastWins_keys (items : List Item) (k : Bytes) : k ∈ keysOf (lastWins items) ↔ k ∈ keysOf items := by
+  simp only [keysOf, List.mem_map]
+  constructor
+  · rintro ⟨it', hit', rfl⟩
+    obtain ⟨it, hit, h1, _⟩ := (mem_lastWins items it').mp hit'
+    exact ⟨it, hit, h1.symm⟩
+  · rintro ⟨it, hit, rfl⟩
+    obtain ⟨v, hv⟩ := foldl_ins_some items OMap.empty it.1 (by simp only [keysOf, List.mem_map]; exact ⟨it, hit, rfl⟩)
+    exact ⟨(it.1, v), (mem_lastWins items (it.1, v)).mpr ⟨it, hit, rfl, hv⟩, rfl⟩
+
+theorem lastWins_valid (w : Bytes → Option Bytes) (b : List Item) (h : ∀ it ∈ b, w it.1 = some it.2) :
+    ∀ it ∈ lastWins b, w it.1 = some it.2 := by
+  intro it' hit'
+  obtain ⟨it, hit, h1, h2⟩ := (mem_lastWins b it').mp hit'
+  rcases foldl_ins_mem _ _ _ _ h2 with h3 | h3
+  · rw [h1]; exact h _ h3
+  · simp [empty_get] at h3
+
+/-! ### batch delete -/
+
+def PDel : View → List Bytes → View → Prop := fun v A v' =>
+  ∀ k, v'.1.get k = if k ∈ A then none else v.1.get k
+
+theorem PDel_eff : Eff PDel := by
+  constructor
+  · intro v k; simp
+  · intro v A v1 B v2 h1 h2 k
+    rw [h2 k, h1 k]
+    simp only [List.mem_append]
+    grind
+  · intro v A B v' hAB h k
+    rw [h k]; simp only [hAB]
+
+theorem regionBatchDelete_get (R : Region) (keys : List Bytes) (m : Store)
+    (h : ∀ k ∈ keys, inRegion R k = true) (k : Bytes) :
+    (regionBatchDelete m R keys).get k = if k ∈ keys then none else m.get k := by
+  unfold regionBatchDelete
+  induction keys generalizing m with
+  | nil => simp
+  | cons a t ih =>
+    simp only [List.foldl_cons]
+    rw [ih _ (fun q hq => h q (List.mem_cons_of_mem _ hq))]
+    simp only [regionDelete, h a (List.mem_cons_self ..), if_true, OMap.get_erase, List.mem_cons]
+    by_cases ht : k ∈ t
+    · simp [ht]
+    · by_cases hk : k = a <;> simp [ht, hk]
+
 end CGV.RawKV
